@@ -240,7 +240,13 @@ def _native_frame(name):
         shutil.rmtree(d, ignore_errors=True)
 
 
-UNITS = [("force", unit_force), ("frame", unit_frame)]
+def unit_fresh_iterator(U):
+    """'only the new input': an iterator over the new Feature objects starts with empty directives (shared with C13)"""
+    from props import C13
+    C13.unit_init_state(U, prefix="C19.input")
+
+
+UNITS = [("force", unit_force), ("frame", unit_frame), ("fresh_iterator", unit_fresh_iterator)]
 try:
     from standins import C19 as _S
     UNITS = UNITS + list(_S.UNITS)
